@@ -229,7 +229,10 @@ func isPrefix(a, b []step) bool {
 
 var pathTokenCache = map[string]*regexp.Regexp{}
 
+var indexRe = regexp.MustCompile(`\[[^\]]*\]`)
+
 func namesPath(detail, path string, suffixOnly bool) bool {
+	detail = indexRe.ReplaceAllString(detail, "") // Root.List[0].Sub names Root.List.Sub
 	key := path
 	if suffixOnly {
 		if i := strings.LastIndex(path, "."); i >= 0 {
